@@ -120,6 +120,9 @@ loop:
 	for {
 		verifYieldP(p, "run.beforeLaunch")
 		err := p.setStateAndRun(p.getStartingStateName(), p.getProcessStarter())
+		if errors.Is(err, errProcessStopped) {
+			break loop
+		}
 		if err != nil {
 			log.Error().Err(err).Msgf(`Failed to run command ["%v"] for process %s`, strings.Join(p.getCommand(), `" "`), p.getName())
 			p.logBuffer.Write(err.Error())
@@ -731,9 +734,20 @@ func (p *Process) getStatusName() string {
 	return p.procState.Status
 }
 
+// errProcessStopped is returned by setStateAndRun when a stop request has
+// already been received: the command must not be launched any more.
+var errProcessStopped = errors.New("process was stopped before launch")
+
 func (p *Process) setStateAndRun(state string, runnable func() error) error {
 	p.stateMtx.Lock()
 	defer p.stateMtx.Unlock()
+	// A stop request cancels procRunCtx before it looks at the state (under
+	// stateMtx). Checking it here, under the same lock, closes the window in
+	// which a stop that arrived after the check in run() was lost and the
+	// command was launched (and never signalled) after the stop returned.
+	if p.procRunCtx.Err() != nil {
+		return errProcessStopped
+	}
 	p.procState.Status = state
 	p.onStateChange(state)
 	return runnable()
